@@ -117,16 +117,27 @@ class Sim(conc.Hooks):
         lmax = self.lmax if self.lazy or self.cap is None else min(self.lmax, self.cap)
         Lsym = fresh_int(tag + "L", min_len, lmax)
         L = core.concretize(Lsym)
-        hs = [fresh_int(tag + f"h{i}", 0, N_MAX) for i in range(L)]
-        for i in range(L):
-            assume(sand(hs[i] > m, hs[i] <= n - 1))
-            if i:
-                assume(hs[(i - 1) // 2] < hs[i])  # heap order (numbers distinct)
-            for i2 in range(i):
-                assume(hs[i] != hs[i2])
         if self.numbering == "default":
-            assume(n - 1 - m == L)  # exactly the messages not yet read by everybody
+            # the queue holds exactly the messages m+1..n-1; its ARRAY is one of the layouts a binary heap can reach by
+            # pushing increasing numbers and popping the minimum (enumerated exactly, see heap_layouts)
+            assume(n - 1 - m == L)
+            lcap = self.cap if (self.cap and not self.lazy) else 7
+            if L >= 3:
+                pcls = core.concretize(smin(m + 1, POP_CLASSES))  # how many messages have been popped so far (capped)
+            else:
+                pcls = POP_CLASSES
+            lays = heap_layouts(L, pcls, lcap)
+            li = core.concretize(fresh_int(tag + "lay", 0, len(lays) - 1)) if len(lays) > 1 else 0
+            perm = lays[li]
+            hs = [m + 1 + perm[i] for i in range(L)]
         else:
+            hs = [fresh_int(tag + f"h{i}", 0, N_MAX) for i in range(L)]
+            for i in range(L):
+                assume(sand(hs[i] > m, hs[i] <= n - 1))
+                if i:
+                    assume(hs[(i - 1) // 2] < hs[i])  # heap order (numbers distinct)
+                for i2 in range(i):
+                    assume(hs[i] != hs[i2])
             # explicit numbering: every number that some subscriber has read beyond m is still queued;
             # number of sends = popped (m+1) + queued
             assume(n == m + 1 + L)
@@ -141,8 +152,11 @@ class Sim(conc.Hooks):
             assume(n >= 1)
             # the end marker is message n-1: queued unless everybody read it
             if L:
-                s = core.concretize(fresh_int(tag + "stop", 0, L - 1))
-                assume(hs[s] == n - 1)
+                if self.numbering == "default":
+                    s = list(perm).index(L - 1)
+                else:
+                    s = core.concretize(fresh_int(tag + "stop", 0, L - 1))
+                    assume(hs[s] == n - 1)
                 msgs[s] = StopIteration
             else:
                 assume(m == n - 1)
@@ -202,6 +216,14 @@ class Sim(conc.Hooks):
                 prove(v == payload(h), label + ":payload of a queued message changed")
         if self.numbering == "default":
             prove(n - 1 - m == len(heap), label + ":queue is not exactly the unread messages")
+            if len(heap) >= 3:
+                lcap = self.cap if (self.cap and not self.lazy) else 7
+                alts = []
+                for pc in range(POP_CLASSES + 1):
+                    cond = (m + 1 == pc) if pc < POP_CLASSES else (m + 1 >= pc)
+                    alts.append(sand(cond, sor(*[sand(*[heap[i][0] == m + 1 + lay[i] for i in range(len(heap))])
+                                                 for lay in heap_layouts(len(heap), pc, lcap)])))
+                prove(sor(*alts), label + ":queue array is not a layout a heap can reach (invariant not inductive)")
         if not self.lazy and not st["killed"]:
             prove(len(heap) <= self.cap, label + ":eager queue exceeds capacity")
         for j in range(S):
@@ -209,6 +231,34 @@ class Sim(conc.Hooks):
                 prove(st["w"][j] == r[j] + 1, label + ":published demand is not the reader's next message")
                 if self.lazy and not st["killed"]:
                     prove(st["w"][j] >= n - 1, label + ":lazy: produced beyond a waiter's queued message")
+
+
+_LAYOUTS = {}
+POP_CLASSES = 3  # layout sets stop growing after 3 pops (for queues of <= 6 entries)
+
+
+def heap_layouts(L, pops=POP_CLASSES, cap=None):
+    """All rank patterns of a heapq array of size L reachable by pushing increasing numbers and popping the minimum,
+    never exceeding `cap` entries, after min(pops, POP_CLASSES) pops (exact enumeration by BFS)."""
+    cap = cap if cap is not None else 7
+    pops = min(pops, POP_CLASSES)
+    if cap not in _LAYOUTS:
+        seen, work = {((), 0)}, [((), 0)]
+        while work:
+            a, p = work.pop()
+            if len(a) < cap:
+                b = list(a); heapq.heappush(b, len(a)); stt = (tuple(b), p)
+                if stt not in seen:
+                    seen.add(stt); work.append(stt)
+            if a:
+                b = list(a); heapq.heappop(b); stt = (tuple(x - 1 for x in b), min(p + 1, POP_CLASSES))
+                if stt not in seen:
+                    seen.add(stt); work.append(stt)
+        d = {}
+        for a, p in seen:
+            d.setdefault((len(a), p), set()).add(a)
+        _LAYOUTS[cap] = {k: sorted(v) for k, v in d.items()}
+    return _LAYOUTS[cap].get((L, pops), [tuple(range(L))])
 
 
 def has(heap, num):
@@ -290,97 +340,193 @@ class _Found(BaseException):
 
 
 def normalise(st):
-    """Shift message numbers so that the slowest reader is at -1 (the mailbox is shift-invariant)."""
+    """Shift message numbers so that the slowest reader is at -1 (the mailbox is shift-invariant).  The ARRAY ORDER of
+    the queue is kept: it is part of the state (heap layout after pops is not sorted)."""
     m = min(st["r"])
     sh = m + 1
-    heap = sorted(h - sh for h, _ in st["heap"])
+    heap = [h - sh for h, _ in st["heap"]]
     stop = [h - sh for h, v in st["heap"] if v is StopIteration]
     return {"n": st["n"] - sh, "r": [x - sh for x in st["r"]], "w": [None if x is None else x - sh for x in st["w"]],
             "heap": heap, "closed": bool(st["closed"]), "killed": bool(st["killed"]), "stop": stop}
 
 
-def search_reach(st, budget=4000):
-    """-> (found: bool, script, runs).  st: an entry of INJECTED."""
+def _snap(mb):
+    return {"n": mb._n_sent, "r": list(mb._subscribers_have_read), "w": list(mb._subscriber_waiting_for),
+            "heap": list(mb._mailbox), "closed": mb.closed, "killed": mb.killed}
+
+
+def search_reach(st, budget=6000):
+    """-> (found: bool, script, runs).  st: an entry of INJECTED.  Real sender / reader threads drive the real Mailbox
+    under the deterministic scheduler; stateful DFS over all schedules; a state matches if it equals the target after
+    shifting message numbers (same relative counters, same queue ARRAY, same flags, sender at the required place)."""
     import strax.mailbox as mbm
 
-    if st.get("numbering") != "default" or st["killed"]:
+    if st["killed"]:
         return None, None, 0
+    if st.get("numbering") != "default":
+        return search_reach_explicit(st, budget)
     tgt = normalise(st)
     nsubs, lazy, cap, drivers = st["nsubs"], st["lazy"], st["cap"], st["drivers"]
-    nreal = tgt["n"] - (1 if tgt["closed"] else 0)  # real messages; the end marker is message n-1
-    if nreal < 0:
-        return False, None, 0
-    seen, work, runs = set(), [()], 0
-    while work and runs < budget:
-        script = list(work.pop())
-        runs += 1
-        pos = {"i": 0}
-        holder = {}
+    runs_total = 0
+    extra_max = (cap if cap else 3) + 1
+    for extra in range(0, extra_max + 1):
+        nreal = tgt["n"] - (1 if tgt["closed"] else 0) + extra  # real messages; the end marker is the last message
+        if nreal < 0:
+            continue
+        seen, work = set(), [()]
+        while work and runs_total < budget:
+            script = list(work.pop())
+            runs_total += 1
+            pos = {"i": 0}
+            holder = {}
 
-        def matches(mb):
-            if st.get("sender") == "sending" and holder.get("fetching") != tgt["n"]:
-                return False
-            if st.get("sender") == "closing" and holder.get("fetching") != "end":
-                return False
-            return (mb._n_sent == tgt["n"] and list(mb._subscribers_have_read) == tgt["r"]
-                    and list(mb._subscriber_waiting_for) == tgt["w"]
-                    and sorted(h for h, _ in mb._mailbox) == tgt["heap"] and bool(mb.closed) == tgt["closed"])
+            def matches(mb):
+                cur = _snap(mb)
+                if cur["killed"] or not cur["r"]:
+                    return False
+                sh = min(cur["r"]) + 1
+                if st.get("sender") == "sending" and holder.get("fetching") != cur["n"]:
+                    return False
+                if st.get("sender") == "closing" and holder.get("fetching") != "end":
+                    return False
+                return normalise(cur) == dict(tgt, stop=normalise(cur)["stop"]) and \
+                    (not tgt["closed"] or normalise(cur)["stop"] == tgt["stop"])
 
-        def pol(s, r):
-            mb = holder["mb"]
-            if matches(mb):
-                holder["found"] = list(s.trace)
-                raise _Found()
-            i = pos["i"]
-            pos["i"] += 1
-            if i < len(script):
-                for t in r:
-                    if t.tid == script[i]:
-                        return t
-                raise _Found()  # script no longer applies (should not happen: deterministic)
-            key = (mb._n_sent, tuple(mb._subscribers_have_read), tuple(mb._subscriber_waiting_for),
-                   tuple(sorted(h for h, _ in mb._mailbox)), mb.closed,
-                   tuple((t.state, t.notified, getattr(t.cond, "name", None)) for t in s.tasks), s.current.tid)
-            if key in seen:
-                holder["pruned"] = True
-                raise _Found()
-            seen.add(key)
-            r = sorted(r, key=lambda t: t.tid)
-            for alt in r[1:]:
-                work.append(tuple(s.trace) + (alt.tid,))
-            return r[0]
+            def pol(s, r):
+                mb = holder["mb"]
+                if matches(mb):
+                    holder["found"] = list(s.trace)
+                    raise _Found()
+                i = pos["i"]
+                pos["i"] += 1
+                if i < len(script):
+                    for t in r:
+                        if t.tid == script[i]:
+                            return t
+                    raise _Found()  # script no longer applies (should not happen: deterministic)
+                key = (mb._n_sent, tuple(mb._subscribers_have_read), tuple(mb._subscriber_waiting_for),
+                       tuple(h for h, _ in mb._mailbox), mb.closed,
+                       tuple((t.state, t.notified, getattr(t.cond, "name", None)) for t in s.tasks), s.current.tid)
+                if key in seen:
+                    holder["pruned"] = True
+                    raise _Found()
+                seen.add(key)
+                r = sorted(r, key=lambda t: t.tid)
+                for alt in r[1:]:
+                    work.append(tuple(s.trace) + (alt.tid,))
+                return r[0]
 
-        with SchedRun(pol) as s:
-            mb = mbm.Mailbox("mb", timeout=1, lazy=lazy, max_messages=cap)
-            holder["mb"] = mb
+            with SchedRun(pol) as s:
+                mb = mbm.Mailbox("mb", timeout=1, lazy=lazy, max_messages=cap)
+                holder["mb"] = mb
 
-            def reader(it, j):
-                s.pause()
-                for x in it:
+                def reader(it, j):
                     s.pause()
+                    for x in it:
+                        s.pause()
 
-            def source():
-                for i in range(nreal):
-                    holder["fetching"] = i  # the sender has passed the gate and is fetching message i
+                def source():
+                    for i in range(nreal):
+                        holder["fetching"] = i  # the sender has passed the gate and is fetching message i
+                        s.pause()
+                        yield ("payload", i)
+                    holder["fetching"] = "end"
                     s.pause()
-                    yield ("payload", i)
-                holder["fetching"] = "end"
-                s.pause()
-                if not tgt["closed"]:
-                    # never finish: park here for ever (only an abort ends this thread)
-                    s.park()
+                    if not tgt["closed"]:
+                        s.park()
 
-            for j in range(nsubs):
-                mb.add_reader(reader, j=j, can_drive=drivers[j])
-            mb.add_sender(source())
-            try:
-                mb.start()
-                s.finish()
-            except _Found:
-                pass
-        if "found" in holder:
-            return True, holder["found"], runs
-    return False, None, runs
+                for j in range(nsubs):
+                    mb.add_reader(reader, j=j, can_drive=drivers[j])
+                mb.add_sender(source())
+                try:
+                    mb.start()
+                    s.finish()
+                except _Found:
+                    pass
+            if "found" in holder:
+                return True, holder["found"], runs_total
+    return False, None, runs_total
+
+
+def search_reach_explicit(st, budget=6000):
+    """Explicit numbering: the sender sends numbers 0..N-1 in some order with displacement < capacity; readers as
+    before.  Search over send orders x thread schedules for a state equal (after shifting) to the target."""
+    import itertools
+
+    import strax.mailbox as mbm
+
+    tgt = normalise(st)
+    nsubs, cap = st["nsubs"], st["cap"]
+    if st["lazy"] or st["closed"]:
+        return None, None, 0
+    runs_total = 0
+    top = max(tgt["heap"] + tgt["r"] + [tgt["n"] - 1]) + 1
+    for N in range(max(top, 1), top + cap + 1):
+        for order in itertools.permutations(range(N)):
+            if any(abs(k - i) >= cap for i, k in enumerate(order)):
+                continue
+            seen, work = set(), [()]
+            while work and runs_total < budget:
+                script = list(work.pop())
+                runs_total += 1
+                pos = {"i": 0}
+                holder = {}
+
+                def matches(mb):
+                    cur = _snap(mb)
+                    return bool(cur["r"]) and normalise(cur) == tgt
+
+                def pol(s, r):
+                    mb = holder["mb"]
+                    if matches(mb):
+                        holder["found"] = (list(order), list(s.trace))
+                        raise _Found()
+                    i = pos["i"]
+                    pos["i"] += 1
+                    if i < len(script):
+                        for t in r:
+                            if t.tid == script[i]:
+                                return t
+                        raise _Found()
+                    key = (mb._n_sent, tuple(mb._subscribers_have_read), tuple(h for h, _ in mb._mailbox),
+                           tuple((t.state, t.notified, getattr(t.cond, "name", None)) for t in s.tasks), s.current.tid)
+                    if key in seen:
+                        raise _Found()
+                    seen.add(key)
+                    r = sorted(r, key=lambda t: t.tid)
+                    for alt in r[1:]:
+                        work.append(tuple(s.trace) + (alt.tid,))
+                    return r[0]
+
+                with SchedRun(pol) as s:
+                    mb = mbm.Mailbox("mb", timeout=1, lazy=False, max_messages=cap)
+                    holder["mb"] = mb
+
+                    def reader(it, j):
+                        s.pause()
+                        for x in it:
+                            s.pause()
+
+                    def sender():
+                        for k in order:
+                            s.pause()
+                            mb.send(("payload", k), msg_number=k)
+                        s.pause()
+                        s.park()
+
+                    for j in range(nsubs):
+                        mb.add_reader(reader, j=j)
+                    mb._threads.append(mbm.threading.Thread(target=sender, name="explicit_sender"))
+                    try:
+                        mb.start()
+                        s.finish()
+                    except _Found:
+                        pass
+                if "found" in holder:
+                    return True, holder["found"], runs_total
+            if runs_total >= budget:
+                return False, None, runs_total
+    return False, None, runs_total
 
 
 def nat_rg(sym_fn):
